@@ -279,3 +279,41 @@ Theorem C12_fmt_rs_matches_model : forall (w N : Z) (fuel : nat) (pad : padder) 
   FmtGen.FmtGen.I_fmt_UpperExp w N fuel pad a = ImpFmt.of_oo (I_fmt_UpperExp pad w a).
 Proof. exact FmtGenTie.fmt_C12_match_model. Qed.
 Print Assumptions C12_fmt_rs_matches_model.
+
+(* ... and therefore the code itself (as regenerated from the source) meets the specification: composing the tie with the
+   theorems above, every generated impl returns `Done` of the canonical numeral of the value (unsigned), of the two's complement
+   pattern (signed radix forms), of the sign and the canonical numeral of the magnitude (signed decimal forms; `pad` any std padder
+   that is the identity without flags, C12_pad_integral_ref_noflags), for every well-formed operand and every budget. *)
+From Bnum.Proofs Require FmtGenTieSpec.
+
+Theorem C12_fmt_rs_meets_spec : forall (w : Z) (n : nat) (N : Z) (fuel : nat) (a : list Z), wf w n a ->
+  (0 < w -> forall ds, canonical_le 2 (uval w a) ds ->
+     FmtGen.FmtGen.U_fmt_Binary w N fuel a = Imp.Done (true, str_0b, map ascii_lower (rev ds))) /\
+  (0 < w -> w mod 4 = 0 -> forall ds, canonical_le 16 (uval w a) ds ->
+     FmtGen.FmtGen.U_fmt_LowerHex w N fuel a = Imp.Done (true, str_0x, map ascii_lower (rev ds)) /\
+     FmtGen.FmtGen.U_fmt_UpperHex w N fuel a = Imp.Done (true, str_0x, map ascii_upper (rev ds))) /\
+  (8 <= w -> forall ds, canonical_le 8 (uval w a) ds ->
+     FmtGen.FmtGen.U_fmt_Octal w N fuel a = Imp.Done (true, str_0o, map ascii_lower (rev ds))) /\
+  (8 <= w -> forall ds, canonical_le 10 (uval w a) ds ->
+     FmtGen.FmtGen.U_fmt_Display w N fuel a = Imp.Done (true, [], map ascii_lower (rev ds)) /\
+     FmtGen.FmtGen.U_fmt_Debug w N fuel a = Imp.Done (true, [], map ascii_lower (rev ds))) /\
+  (8 <= w ->
+     (exists body, FmtGen.FmtGen.U_fmt_LowerExp w N fuel a = Imp.Done (true, [], body) /\ exp_body_spec 101 (uval w a) body) /\
+     (exists body, FmtGen.FmtGen.U_fmt_UpperExp w N fuel a = Imp.Done (true, [], body) /\ exp_body_spec 69 (uval w a) body)) /\
+  (0 < w -> forall ds, canonical_le 2 (sval w a mod Mod w n) ds ->
+     FmtGen.FmtGen.I_fmt_Binary w N fuel a = Imp.Done (true, str_0b, map ascii_lower (rev ds))) /\
+  (0 < w -> w mod 4 = 0 -> forall ds, canonical_le 16 (sval w a mod Mod w n) ds ->
+     FmtGen.FmtGen.I_fmt_LowerHex w N fuel a = Imp.Done (true, str_0x, map ascii_lower (rev ds)) /\
+     FmtGen.FmtGen.I_fmt_UpperHex w N fuel a = Imp.Done (true, str_0x, map ascii_upper (rev ds))) /\
+  (8 <= w -> forall ds, canonical_le 8 (sval w a mod Mod w n) ds ->
+     FmtGen.FmtGen.I_fmt_Octal w N fuel a = Imp.Done (true, str_0o, map ascii_lower (rev ds))) /\
+  (forall pad, pad_noflags_id pad -> 8 <= w -> (0 < n)%nat ->
+     (forall ds, canonical_le 10 (Z.abs (sval w a)) ds ->
+        FmtGen.FmtGen.I_fmt_Display w N fuel pad a = Imp.Done (0 <=? sval w a, [], map ascii_lower (rev ds)) /\
+        FmtGen.FmtGen.I_fmt_Debug w N fuel pad a = Imp.Done (0 <=? sval w a, [], map ascii_lower (rev ds))) /\
+     (exists body, FmtGen.FmtGen.I_fmt_LowerExp w N fuel pad a = Imp.Done (0 <=? sval w a, [], body) /\
+                   exp_body_spec 101 (Z.abs (sval w a)) body) /\
+     (exists body, FmtGen.FmtGen.I_fmt_UpperExp w N fuel pad a = Imp.Done (0 <=? sval w a, [], body) /\
+                   exp_body_spec 69 (Z.abs (sval w a)) body)).
+Proof. exact FmtGenTieSpec.fmt_C12_generated_meets_spec. Qed.
+Print Assumptions C12_fmt_rs_meets_spec.
